@@ -456,6 +456,7 @@ def run(tier):
     rule_R9(res, prog)
     rule_R10(res, prog)
     rule_R11(res, prog)
+    rule_R12(res, prog)
     return res.finish()
 
 
@@ -1179,3 +1180,67 @@ def rule_R11(res, prog):
                              "that follow use uninitialised stack memory" % (fn.relfile, ln, fn.name, nm, nm, nm), file=fn.relfile, line=ln)
             res.instance(rid, "%s:%s %s cleared before psOcspParseResponse" % (fn.name, ln, nm), esc is None, finding=f_)
     res.floor(rid, 1 if prog.by_name.get("psOcspParseResponse") else 0)
+
+
+def rule_R12(res, prog):
+    """The TLS 1.3 parsers read through the bounds-checked psParseBuf primitives, which is why they are outside the zone
+    analysis - except where a raw (pointer, length) pair is taken OUT of a psParseBuf and handed to a sub-parser that builds
+    its own psParseBuf over it.  Wherever `x = pb->buf.start` (or pb->buf.start itself / its address-taken copy) is passed
+    to a function together with a length variable, the call lies under the branch fact psParseCanRead(pb, thatLength), or the length was delivered by
+    the TLS-vector primitive (which checks it against the buffer itself)."""
+    from sa import cfgutil as cu
+    rid = "C08.R12"
+    res.rule(rid, "TLS 1.3: a raw (pb->buf.start, length) pair handed to a sub-parser is covered by psParseCanRead(pb, length)")
+    n = 0
+    for fn in sorted(prog.functions.values(), key=lambda f: (f.relfile, f.line)):
+        if not fn.blocks or fn.relfile not in ("matrixssl/tls13Decode.c", "matrixssl/tls13DecodeExt.c"):
+            continue
+        gf = None
+        rd = None
+        for b in fn.blocks:
+            for i, ln, x in cu.block_exprs(b):
+                for call in walk(x):
+                    if call.get("k") != "call" or not call.get("fn") or call["fn"].startswith("psParse") or call["fn"].startswith("psTrace"):
+                        continue
+                    args = call.get("a", [])
+                    raw = None
+                    for j, a in enumerate(args):
+                        a0 = strip(a)
+                        while a0 is not None and a0.get("k") == "cast":
+                            a0 = strip(a0["e"])
+                        if a0 is not None and a0.get("k") == "un" and a0["op"] == "&":
+                            a0 = strip(a0["e"])
+                        if a0 is None:
+                            continue
+                        if a0.get("k") == "var" and a0.get("sc") == "l" and "*" in (a0.get("t") or ""):
+                            rd = rd or cu.reaching_defs(fn)
+                            ds = cu.defs_at(fn, rd, b["id"], i, a0["id"])
+                            if ds and all(d[2] in ("assign", "decl") and d[3] is not None and re.match(r"^\w+->buf\.start$", cu.ftext(d[3])) for d in ds):
+                                raw = (j, cu.ftext(ds[0][3]).split("->")[0])
+                        elif a0.get("k") == "mem" and re.match(r"^\w+->buf\.start$", cu.ftext(a0)):
+                            raw = (j, cu.ftext(a0).split("->")[0])
+                    if raw is None:
+                        continue
+                    lens = [strip(a) for j, a in enumerate(args) if j != raw[0] and (strip(a) or {}).get("k") == "var" and
+                            (strip(a) or {}).get("sc") == "l" and re.search(r"[Ll]en$", (strip(a) or {}).get("n") or "")]
+                    if not lens:
+                        continue
+                    n += 1
+                    gf = gf or cu.guard_facts(fn)
+                    L = lens[0]["n"]
+                    want = "psParseCanRead(%s, %s)" % (raw[1], L)
+                    ok = (want, True) in gf.get(b["id"], ())
+                    if not ok:
+                        # a length delivered by the vector primitive is already checked against the buffer by that primitive
+                        rd = rd or cu.reaching_defs(fn)
+                        dsl = cu.defs_at(fn, rd, b["id"], i, lens[0]["id"])
+                        ok = bool(dsl) and all(d[2] == "outarg" and isinstance(d[3], dict) and
+                                               re.search(r"TlsVector|TlsVariableLengthVec", (d[3].get("call") or {}).get("fn") or "") for d in dsl)
+                    f_ = None
+                    if not ok:
+                        f_ = Finding(PROP, rid, fn.name, "%s given a raw buffer with an unchecked length" % call["fn"],
+                                     "%s:%s %s(): %s(.., %s->buf.start .., %s ..) without the branch fact %s: the sub-parser builds its own parse "
+                                     "buffer over %s bytes the message may not contain and reads (and keeps pointers) past its end" % (
+                                         fn.relfile, ln, fn.name, call["fn"], raw[1], L, want, L), file=fn.relfile, line=ln)
+                    res.instance(rid, "%s:%s %s(raw buffer, %s) under %s" % (fn.name, ln, call["fn"], L, want), ok, finding=f_)
+    res.floor(rid, 2 if prog.defined("USE_TLS_1_3") else 0)
